@@ -31,4 +31,23 @@ def registry():
                               'consumed': 's._index == old(s._index) + spec.der.length_octets(old(s._buffer)[old(s._index):])',
                               'valid': 'valid(s)'},
                      modifies=['s._index'], result='nat'))
+    S = 'obj:' + A + 'BytesIO_EOF'
+    rem = 's._buffer[s._index:]'
+    orem = 'old(s._buffer)[old(s._index):]'
+    reg.add(Contract(A + 'DerObject._decodeFromStream', params={'s': S, 'strict': 'bool'},
+                     raises={'ValueError': ('iff', 'not (spec.der.explicit_ok(%s, self._tag_octet, self._inner_tag_octet) if hasattr(self, "_inner_tag_octet") '
+                                                   'else spec.der.tlv_ok(%s, self._tag_octet))' % (rem, rem))},
+                     ensures={'tag': 'self._tag_octet == %s[0]' % orem,
+                              'payload': 'self.payload == (spec.der.tlv_content(spec.der.tlv_content(%s)) if hasattr(self, "_inner_tag_octet") else spec.der.tlv_content(%s))' % (orem, orem),
+                              'consumed': 's._index == old(s._index) + spec.der.tlv_size(%s)' % orem,
+                              'valid': 'valid(s)'},
+                     modifies=['s._index', 'self.payload', 'self._tag_octet'],
+                     opaque=['spec.der.length_ok', 'spec.der.length_octets', 'spec.der.length_value']))
+    reg.add(Contract(A + 'DerObject.decode', params={'der_encoded': 'bytes', 'strict': 'bool'},
+                     raises={'ValueError': ('iff', 'not ((spec.der.explicit_ok(der_encoded, self._tag_octet, self._inner_tag_octet) if hasattr(self, "_inner_tag_octet") '
+                                                   'else spec.der.tlv_ok(der_encoded, self._tag_octet)) and spec.der.tlv_size(der_encoded) == len(der_encoded))')},
+                     ensures={'self': 'result is self',
+                              'payload': 'self.payload == (spec.der.tlv_content(spec.der.tlv_content(der_encoded)) if hasattr(self, "_inner_tag_octet") else spec.der.tlv_content(der_encoded))'},
+                     modifies=['self.payload', 'self._tag_octet'],
+                     opaque=['spec.der.tlv_ok', 'spec.der.tlv_size', 'spec.der.tlv_content', 'spec.der.explicit_ok']))
     return reg
